@@ -265,6 +265,9 @@ func (s *Stage) validateConstantStage(idx int, defaults Stage) (*Stage, error) {
 	if s.Jitter == nil {
 		s.Jitter = defaults.Jitter
 	}
+	if s.Jitter == nil {
+		s.Jitter = new(float64) // jitter is optional: no jitter when it is given nowhere
+	}
 	if s.Parameters == nil {
 		if defaults.Parameters == nil {
 			s.Parameters = &map[string]string{}
@@ -298,6 +301,9 @@ func (s *Stage) validateRampStage(idx int, defaults Stage) (*Stage, error) {
 	if s.Jitter == nil {
 		s.Jitter = defaults.Jitter
 	}
+	if s.Jitter == nil {
+		s.Jitter = new(float64) // jitter is optional: no jitter when it is given nowhere
+	}
 	if s.Parameters == nil {
 		if defaults.Parameters == nil {
 			s.Parameters = &map[string]string{}
@@ -330,6 +336,9 @@ func (s *Stage) validateStagedStage(idx int, defaults Stage) (*Stage, error) {
 	}
 	if s.Jitter == nil {
 		s.Jitter = defaults.Jitter
+	}
+	if s.Jitter == nil {
+		s.Jitter = new(float64) // jitter is optional: no jitter when it is given nowhere
 	}
 	if s.Parameters == nil {
 		if defaults.Parameters == nil {
@@ -387,6 +396,9 @@ func (s *Stage) validateGaussianStage(idx int, defaults Stage) (*Stage, error) {
 	}
 	if s.Jitter == nil {
 		s.Jitter = defaults.Jitter
+	}
+	if s.Jitter == nil {
+		s.Jitter = new(float64) // jitter is optional: no jitter when it is given nowhere
 	}
 	if s.Parameters == nil {
 		if defaults.Parameters == nil {
